@@ -196,7 +196,8 @@ class MatchIter(Iter):
         b = fresh_int('mend')
         st.assume(And(zint(st.ghost[self.k2]) <= a, a <= b,
                       b <= zint(self.seq.ln)))
-        m = Obj('re.Match', {'_start': a, '_end': b, '_string': self.seq})
+        m = Obj('re.Match', {'_start': a, '_end': b, '_string': self.seq,
+                              'string': self.seq})
         st.ghost['$match%d' % self.ordinal] = m
         self.bind(st, m)
         return [st]
